@@ -93,6 +93,16 @@ fn memory_probe(bin: &str, cfg: &Cfg, viols: &mut Vec<(Vec<&'static str>, String
     if cfg.eviction != "random" || limit > (2 << 20) {
         return;
     }
+    // the configuration's own spelling, and the same kind of limit written in lower and in upper case
+    for spelling in [cfg.memory, "64kb", "1mb", "100KiB", "64KB"] {
+        let mut c2 = cfg.clone();
+        c2.memory = spelling;
+        memory_probe_one(bin, &c2, viols);
+    }
+}
+
+fn memory_probe_one(bin: &str, cfg: &Cfg, viols: &mut Vec<(Vec<&'static str>, String)>) {
+    let Some(limit) = size_bytes(cfg.memory) else { return };
     let mut c2 = cfg.clone();
     c2.port = crate::net::free_port();
     let Some(_p) = spawn(bin, &c2) else { return };
